@@ -51,19 +51,36 @@ func fuzzRun(f *testing.F, ft *fuzzTarget) {
 		f.Skipf("target %s not built", ft.Target)
 	}
 	recordAs = ft.Fuzz
+	// corpus: every distinct valid message once per entry-point variant and fixture variant, and a
+	// sample of the semantic mutants; capped, because the fuzzing engine replays the whole corpus in
+	// every worker before it starts mutating
+	const maxCorpus = 240
+	added := 0
+	seen := map[uint64]bool{}
+	add := func(sel byte, data []byte) {
+		h := vstat.Hash(int(sel), data)
+		if seen[h] || added >= maxCorpus || len(data) > 64<<10 {
+			return
+		}
+		seen[h] = true
+		added++
+		f.Add(sel, data)
+	}
 	for fix := 0; fix < max(t.Fixes, 1); fix++ {
 		fx, err := t.Build(uint64(fix))
 		if err != nil {
 			f.Fatalf("harness: %v", err)
 		}
 		seeds := fx.Seeds()
-		for si, s := range seeds {
-			f.Add(selByte(uint64(fix), s.V), s.Data)
-			for _, k := range fx.Semantic() {
-				for a := 0; a < 3; a++ {
-					if v, data, _, ok := materialise(fx, In{Base: si, Kind: k, A: a, B: a * 5, C: a}); ok {
-						f.Add(selByte(uint64(fix), v), data)
-					}
+		for _, s := range seeds {
+			add(selByte(uint64(fix), s.V), s.Data)
+		}
+		sem := fx.Semantic()
+		for a := 0; a < 2; a++ {
+			for ki, k := range sem {
+				si := (ki*7 + a*3 + fix) % len(seeds)
+				if v, data, _, ok := materialise(fx, In{Base: si, Kind: k, A: a + fix, B: a * 5, C: a}); ok {
+					add(selByte(uint64(fix), v), data)
 				}
 			}
 		}
